@@ -109,7 +109,12 @@ func builtinNumberToLocaleString(call FunctionCall) Value {
 	locale := call.Argument(0)
 	lang := defaultLanguage
 	if locale.IsDefined() {
-		lang = language.MustParse(locale.string())
+		tag, err := language.Parse(locale.string())
+		if err != nil {
+			// MustParse would panic: an ill-formed language tag is a RangeError of the script.
+			panic(call.runtime.panicRangeError("Incorrect locale information provided"))
+		}
+		lang = tag
 	}
 
 	p := message.NewPrinter(lang)
